@@ -312,6 +312,7 @@ Definition safe_write (w : write) : bool :=
   | WIns r => negb (r_tbl r =? T_managed)
   | WUpd t _ _ => negb (t =? T_managed)
   | WDel t _ => (t =? T_managed) || (T_opaque <? t)
+  | WTouch _ _ => true
   end.
 
 Lemma has_map_upd : forall t k v t' k' rs,
@@ -368,7 +369,7 @@ Qed.
 Lemma complete_safe_write : forall w s, safe_write w = true ->
   complete_rows (rows s) = true -> complete_rows (rows (apply_write s w)) = true.
 Proof.
-  intros w s Hw H. unfold apply_write. simpl rows. destruct w as [r|t k v|t k]; simpl in Hw.
+  intros w s Hw H. unfold apply_write. simpl rows. destruct w as [r|t k v|t k|t k]; simpl in Hw; [| | |exact H].
   - apply complete_ins; [|exact H]. intro E. rewrite E in Hw. discriminate.
   - apply complete_upd; [|exact H]. intro E. rewrite E in Hw. discriminate.
   - apply complete_del; [|exact H]. apply orb_true_iff in Hw. destruct Hw as [E|E]; [left|right]; lia.
@@ -384,7 +385,7 @@ Qed.
 
 Lemma attr_write_safe : forall w, attr_write w = true -> safe_write w = true.
 Proof.
-  intros [r|t k v|t k]; unfold attr_write, attr_table, safe_write, T_names, T_appmap, T_managed, T_opaque; lia.
+  intros [r|t k v|t k|t k]; unfold attr_write, attr_table, safe_write, T_names, T_appmap, T_managed, T_opaque; lia.
 Qed.
 
 Lemma complete_object_rows : forall uid ot f n, complete_rows (object_rows uid ot f n) = true.
@@ -428,6 +429,13 @@ Proof.
     + destruct (st =? ST_active); [discriminate|].
       destruct (st =? ST_compromised); apply some_inj in W; subst ws; apply complete_safe_writes; try reflexivity; exact H.
     + apply some_inj in W; subst ws. apply complete_safe_writes; [reflexivity|exact H].
+  - destruct valid; cbn [andb] in W; [|discriminate].
+    destruct (forallb attr_write ws0) eqn:A; [|discriminate]. apply some_inj in W; subst ws.
+    unfold apply_writes. rewrite fold_left_app. apply complete_safe_writes.
+    + rewrite forallb_forall in *. intros w Hw. apply attr_write_safe, A, Hw.
+    + change (fold_left apply_write (map WIns (object_rows (next_uid s) OT_symmetric (max_key T_names (rows s) + 1) names)) s)
+        with (apply_writes (map WIns (object_rows (next_uid s) OT_symmetric (max_key T_names (rows s) + 1) names)) s).
+      rewrite rows_apply_ins. apply complete_rows_app; [exact H|apply complete_object_rows].
   - destruct ok; simpl in W; [|discriminate].
     destruct (forallb attr_write ws0) eqn:A; [|discriminate]. apply some_inj in W; subst ws.
     apply complete_safe_writes; [|exact H].
